@@ -2,6 +2,7 @@ package props
 
 import (
 	"fmt"
+	"github.com/ontio/ontology/core/store"
 	"math/big"
 	"strings"
 
@@ -24,7 +25,7 @@ func init() {
 	simkit.Register(&simkit.Prop{
 		ID:   "C43",
 		Desc: "for every committed block the stored bloom tests positive for the address and every topic of every EVM log of the block (logs the generator knows the contracts emitted, logs in the execution result, logs in the persisted event records); for every completed 4096-block section, bit i of the stored section index equals bit i of the 4096 stored block blooms, for all 2048 bits",
-		Rule: "a run = one solo ledger, 2 funded EVM senders, 3 universal log contracts. Short runs (most): 6..60 blocks, about two thirds carrying 1..4 EIP-155 transactions that emit LOG0..LOG4 / three logs at once / a log from a nested call / a log from a constructor, with topics from a small pool, tape-chosen 32-byte values and addresses; gas price 0 or 500 GWei and values (ONG Transfer logs of the native ONG address); reverting and out-of-gas transactions in between; clean restarts. Long runs (1 in 30 quick, 1 in 5 thorough; thorough: one or two sections): 4096*k + 1..40 blocks, mostly empty, a log-carrying block about every 40 blocks plus the last blocks before and the first after each boundary, clean restarts mid-section, shortly before and right after a section boundary (tape-chosen distance 0..3). Blooms of all log-carrying blocks are re-read after every restart and at the end. non-trivial = at least 3 log-carrying blocks with at least 5 logs checked and a restart, or a completed section checked; distinct = distinct event-trace hash",
+		Rule: "a run = one solo ledger, 2 funded EVM senders, 3 universal log contracts. Short runs (most): 6..60 blocks, about two thirds carrying 1..4 EIP-155 transactions that emit LOG0..LOG4 / three logs at once / a log from a nested call / a log from a constructor, with topics from a small pool, tape-chosen 32-byte values and addresses; gas price 0 or 500 GWei and values (ONG Transfer logs of the native ONG address); reverting and out-of-gas transactions in between; clean restarts; for a sixth of the log-carrying blocks the process dies at a tape-chosen disk call inside the commit (optionally torn), is restarted, and gets the block again if it was lost. Long runs (1 in 30 quick, 1 in 5 thorough; thorough: one or two sections): 4096*k + 1..40 blocks, mostly empty, a log-carrying block about every 40 blocks plus the last blocks before and the first after each boundary, clean restarts mid-section, shortly before and right after a section boundary (tape-chosen distance 0..3). Blooms of all log-carrying blocks are re-read after every restart and at the end. non-trivial = at least 3 log-carrying blocks with at least 5 logs checked and a restart, or a completed section checked; distinct = distinct event-trace hash",
 		Real: []string{"core/store/ledgerstore (executeBlock bloom construction, saveBlockToBlockStore, BlockStore.SaveBloomData / GetBloomData / LoadBloomBits, PutBloomIndex / ReadBloomBits, event store, recovery)", "smartcontract/service/evm + vm/evm (LOGn, receipts, ONG transfer logs)", "smartcontract/event (ExecuteNotifyFromEthReceipt, NotifyEventInfoToEvmLog)", "go-ethereum core/bloombits generator + bitutil compression", "goleveldb on SimDisk"},
 		Stub: []string{"solo block producer (harness builds/signs blocks like consensus/solo)", "log filter / matcher of http/ethrpc/filters: not run; the oracle reads the same two data sets the matcher reads", "wasm JIT (stub archive)"},
 		Assumptions: []string{
@@ -395,7 +396,49 @@ func (r *c43Run) commit(evm []*c43Tx, native []*types.Transaction) {
 	r.ts += 1 + uint32(c.Tape.Choose(3))
 	h := r.ch.Height() + 1
 	blk := r.ch.MakeBlock(txs, r.ts, uint64(h))
-	res, err := r.ch.Commit(blk)
+	var res store.ExecuteResult
+	var err error
+	if len(evm) > 0 && c.Tape.Prob(1, 6) {
+		// the process dies inside the commit of this block (C01's protocol), is restarted and,
+		// if the block was lost, gets it again
+		world.Quiesce()
+		k, torn := 1+c.Tape.Choose(14), c.Tape.Choose(3)*100
+		r.ch.Disk.ArmCrash(k, torn)
+		res, err = r.ch.Commit(blk)
+		if r.ch.Disk.Crashed() {
+			c.Fault("crash_in_commit")
+			c.Probe("crash_in_commit")
+			c.Logf("CRASH in commit of block %d at %s (commit err: %v)", h, r.ch.Disk.CrashInfo, err)
+			c40CloseCrashed(r.ch)
+			world.Quiesce()
+			r.ch.Disk.Restart()
+			if oerr := r.ch.Open(); oerr != nil {
+				c.Fail("reopen-fails", "crash-in-commit", "reopen after a crash in the commit of block %d (%s) fails: %v", h, r.ch.Disk.CrashInfo, oerr)
+			}
+			world.Quiesce()
+			r.restarts++
+			if r.ch.Height() < h {
+				c.Probe("crash_lost_block")
+				res, err = r.ch.Commit(blk)
+			} else {
+				// the block survived: its execution results are what the event store holds
+				c.Probe("crash_kept_block")
+				res = store.ExecuteResult{}
+				for _, tx := range txs {
+					nt, nerr := r.ch.Store.GetEventNotifyByTx(tx.Hash())
+					if nerr != nil || nt == nil {
+						c.Fail("reopen-fails", "crash-in-commit/events", "after the crash in the commit of block %d the ledger is at height %d but has no execution result for transaction %x: %v", h, r.ch.Height(), tx.Hash(), nerr)
+					}
+					res.Notify = append(res.Notify, nt)
+				}
+				err = nil
+			}
+		} else {
+			r.ch.Disk.Disarm()
+		}
+	} else {
+		res, err = r.ch.Commit(blk)
+	}
 	if err != nil {
 		c.Harness("block %d refused: %v", h, err)
 	}
